@@ -101,7 +101,9 @@ func (r *Reconciler) Reconcile(id controller.ID) (controller.Result, error) {
 			log.Infof("Elected new master '%s' in term %d for Configuration '%s'", config.Status.Mastership.Master, config.Status.Mastership.Term, config.ID)
 		}
 
-		// Update the Configuration status
+		// Update the Configuration status. The applied path values are not written back: they were not changed, and
+		// a copy read before a newer change was applied would overwrite the newer values.
+		config.Status.Applied.Values = nil
 		err = r.configurations.UpdateStatus(ctx, config)
 		if err != nil {
 			if !errors.IsNotFound(err) && !errors.IsConflict(err) {
